@@ -142,10 +142,10 @@ Theorem gen_pcg_multiplier_is_model : pcg_detail_default_multiplier_multiplier__
 Proof. exact gen_pcg_multiplier. Qed.
 Print Assumptions gen_pcg_multiplier_is_model.
 
-Theorem gen_pcg_stream_is_model : forall seq, 0 <= seq < 2 ^ 64 ->
+Theorem gen_pcg_stream_constructor_is_model : forall seq, 0 <= seq < 2 ^ 64 ->
   specific_stream_inc_ (pcg_detail_specific_stream_mk__ul MZ seq) = snd (pcg_seed 0 seq).
 Proof. exact gen_pcg_stream. Qed.
-Print Assumptions gen_pcg_stream_is_model.
+Print Assumptions gen_pcg_stream_constructor_is_model.
 
 (* xsh_rr_mixin<uint32_t,uint64_t>::output (with pcg_extras::rotr inlined): for EVERY 64-bit state the
    regenerated text under the machine reading computes the model's pcg_output *)
@@ -200,3 +200,11 @@ Theorem gen_uniform_real_distribution_is_model : forall rn l u k,
   ddenote rn l u 0 k uniform_return_ast = uniform_real rn l u k.
 Proof. exact gen_uniform. Qed.
 Print Assumptions gen_uniform_real_distribution_is_model.
+
+(* generic in the GENERATOR: for any g.min() / g.max() the regenerated return expression subtracts g.min() from the sample
+   (numerator) and from g.max() (divisor): it is the model's uniform_real_g, which stays in [l, rn(l + rn(u-l))] for every
+   generator range gmin < gmax (Properties.uniform_real_any_generator_range) *)
+Theorem gen_uniform_real_any_generator_is_model : forall rn l u gmin gmax k,
+  ddenote_g rn l u 0 gmin gmax k uniform_return_ast = uniform_real_g rn l u gmin gmax k.
+Proof. exact gen_uniform_any_generator. Qed.
+Print Assumptions gen_uniform_real_any_generator_is_model.
